@@ -280,16 +280,15 @@ def first_diff(r1, r2):
     return None
 
 
-def sweep(ctx, cl, probe, model):
+def sweep(ctx, cl, probe, model, lo=1, hi=0x10ffff):
     """width class of every code point.  The implementation is evaluated at EVERY code point (the probe
     compresses equal neighbours into runs); the oracle is table membership of every code point, compressed
     the same way; the extracted model prints its runs from evaluations at the ends and the middle of every
     piece between two table bounds (all code points of a dense sample and, in the thorough tier, all
     code points one by one as well)."""
     res = ctx.res
-    lo, hi = 1, 0x10ffff
     rq = 'wclass %d %d' % (lo, hi)
-    dense = (1, 0x0fff) if ctx.quick else (lo, hi)
+    dense = (lo, min(hi, 0x0fff)) if ctx.quick and hi > 0x0fff else (lo, hi)
     step = (dense[1] - dense[0] + 16) // 16
     parts = [(a, min(dense[1], a + step - 1)) for a in range(dense[0], dense[1] + 1, step)]
     jobs = [('probe', rq), ('model', rq), ('expected', None)] + [('dense', p) for p in parts]
@@ -736,8 +735,7 @@ def run(ctx):
                 except UnicodeDecodeError:
                     mal.append((b, opt))
             elif w[0] == 'wsweep':
-                for (rc1, out1, _e) in [vlib.run_lines(probe, [r])]:
-                    res.extra.setdefault('replayed_sweep', []).extend(out1[:5])
+                sweep(ctx, cl, probe, model, int(w[1]), int(w[2]))
     else:
         # corpus first
         cases, mal, corpus_vi, corpus_vi2 = [], [], [], []
